@@ -886,8 +886,160 @@ impl Check for Attribution {
     }
 }
 
+
+// ---------------------------------------------------------------------------------------------
+// indexed_subscriptions: the dynamic builder's index-keyed subscription forms
+// ---------------------------------------------------------------------------------------------
+
+#[derive(Debug, Clone, Serialize, Deserialize)]
+pub struct IndexedSubsCase {
+    pub defs: Vec<crate::props::world::InstrumentDef>,
+    /// order in which the unindexed subscriptions are handed over
+    pub order: Vec<u16>,
+}
+
+/// `generate_indexed_market_data_subscription_batches` / `index_market_data_subscription_batches`
+/// give every subscription the index of exactly the instrument it is for.
+pub struct IndexedSubscriptions;
+
+impl Check for IndexedSubscriptions {
+    type Case = IndexedSubsCase;
+    const NAME: &'static str = "indexed_subscriptions";
+
+    fn normalise(mut case: IndexedSubsCase) -> IndexedSubsCase {
+        case.defs = crate::props::world::normalise_defs(case.defs, false);
+        case
+    }
+
+    fn strategy(_tier: Tier) -> BoxedStrategy<IndexedSubsCase> {
+        use crate::props::world::{InstrumentDef, KindDef, UnitDef, instrument_def};
+        (
+            (1u8..=3).prop_flat_map(|n| prop::collection::vec(instrument_def(n), 0..6)),
+            // an option / future chain: few underlyings, many contracts
+            prop::collection::vec((0u8..2, 0u8..2, 0u8..3, any::<bool>(), 0u16..3, any::<bool>()), 0..7),
+            prop::collection::vec(any::<u16>(), 0..14),
+        )
+            .prop_map(|(mut defs, chain, order)| {
+                for (exchange, base, expiry_day, call, strike, future) in chain {
+                    let kind = if future { KindDef::Future { settle: 2, expiry_day } } else { KindDef::Option { settle: 2, expiry_day, call, strike } };
+                    defs.push(InstrumentDef { exchange, base, quote: 2, kind, unit: UnitDef::NoSpec });
+                }
+                IndexedSubsCase { defs, order }
+            })
+            .boxed()
+    }
+
+    fn eval(case: &IndexedSubsCase) -> CaseReport {
+        use crate::props::world::{self, InstrumentDef, KindDef};
+        use barter_data::{
+            streams::builder::dynamic::indexed::{generate_indexed_market_data_subscription_batches, index_market_data_subscription_batches},
+            subscription::SubKind,
+        };
+        let mut rep = CaseReport::new();
+        macro_rules! bad {
+            ($sig:expr, $($fmt:tt)+) => {{ rep.fail($sig, format!($($fmt)+)); return rep; }};
+        }
+        let mut defs: Vec<InstrumentDef> = Vec::new();
+        for d in &case.defs {
+            if !defs.contains(d) {
+                defs.push(*d);
+            }
+        }
+        if defs.is_empty() {
+            return rep;
+        }
+        let indexed = world::index(&defs);
+        let index_of = |d: &InstrumentDef| indexed.instruments().iter().find(|i| i.value.name_internal.name().as_str() == d.name_internal()).map(|i| i.key);
+        let md_kind = |d: &InstrumentDef| match d.kind {
+            KindDef::Spot => MarketDataInstrumentKind::Spot,
+            KindDef::Perpetual { .. } => MarketDataInstrumentKind::Perpetual,
+            KindDef::Future { expiry_day, .. } => MarketDataInstrumentKind::Future(MarketDataFutureContract { expiry: crate::props::gens::ts(crate::props::gens::T0_MS + 86_400_000 * (30 + expiry_day as i64)) }),
+            KindDef::Option { expiry_day, call, strike, .. } => MarketDataInstrumentKind::Option(MarketDataOptionContract {
+                kind: if call { OptionKind::Call } else { OptionKind::Put },
+                exercise: OptionExercise::European,
+                expiry: crate::props::gens::ts(crate::props::gens::T0_MS + 86_400_000 * (30 + expiry_day as i64)),
+                strike: Decimal::from(strike as u32 + 1),
+            }),
+        };
+
+        // ---- (a) subscriptions generated from the index ---------------------------------------
+        let batches = generate_indexed_market_data_subscription_batches(&indexed, &[SubKind::PublicTrades, SubKind::OrderBooksL1]);
+        let mut seen: Vec<(usize, SubKind)> = Vec::new();
+        for batch in &batches {
+            for sub in batch {
+                if sub.exchange != batch[0].exchange {
+                    bad!("generated:batch-mixes-exchanges", "a generated batch holds subscriptions for {} and {}", batch[0].exchange, sub.exchange);
+                }
+                let Some(inst) = indexed.instruments().get(sub.instrument.key.index()) else {
+                    bad!("generated:unknown-index", "generated subscription carries {:?}, the collection has {} instruments", sub.instrument.key, indexed.instruments().len());
+                };
+                if inst.key != sub.instrument.key || inst.value.exchange.value != sub.exchange || inst.value.name_exchange != sub.instrument.name_exchange || !inst.value.kind.eq_market_data_instrument_kind(&sub.instrument.kind) {
+                    bad!("generated:wrong-index", "generated subscription ({}, {}, {:?}) carries {:?}, which is {} on {}", sub.exchange, sub.instrument.name_exchange, sub.instrument.kind, sub.instrument.key, inst.value.name_exchange, inst.value.exchange.value);
+                }
+                seen.push((sub.instrument.key.index(), sub.kind));
+            }
+        }
+        let mut want: Vec<(usize, SubKind)> = (0..indexed.instruments().len()).flat_map(|i| [(i, SubKind::PublicTrades), (i, SubKind::OrderBooksL1)]).collect();
+        seen.sort_by_key(|(i, k)| (*i, *k as u8));
+        want.sort_by_key(|(i, k)| (*i, *k as u8));
+        if seen != want {
+            bad!("generated:coverage", "generated subscriptions cover {seen:?}, expected every instrument once per kind {want:?}");
+        }
+
+        // ---- (b) unindexed subscriptions indexed against the collection ----------------------
+        // two definitions that differ only in what the market-data form does not carry (settlement
+        // asset, quantity unit) are indistinguishable there: set aside
+        let md_key = |d: &InstrumentDef| (d.exchange_id(), d.base % 7, d.quote % 7, format!("{:?}", md_kind(d)));
+        let unambiguous: Vec<&InstrumentDef> = defs.iter().filter(|d| defs.iter().filter(|o| md_key(o) == md_key(d)).count() == 1).collect();
+        let excluded = defs.len() - unambiguous.len();
+        let mut order: Vec<usize> = (0..unambiguous.len()).collect();
+        order.sort_by_key(|i| (case.order.get(*i).copied().unwrap_or(0), *i));
+        let subs: Vec<(Subscription<ExchangeId, MarketDataInstrument, SubKind>, &InstrumentDef)> = order
+            .iter()
+            .map(|i| {
+                let d = unambiguous[*i];
+                let inst = d.to_instrument();
+                let md = MarketDataInstrument::from((inst.underlying.base.name_internal.name().as_str(), inst.underlying.quote.name_internal.name().as_str(), md_kind(d)));
+                (Subscription::new(d.exchange_id(), md, SubKind::PublicTrades), d)
+            })
+            .collect();
+        let mut sibling_contracts = false;
+        for (i, (_, a)) in subs.iter().enumerate() {
+            for (_, b) in &subs[i + 1..] {
+                let same_underlying = a.exchange_id() == b.exchange_id() && a.base % 7 == b.base % 7 && a.quote % 7 == b.quote % 7;
+                if same_underlying && matches!((a.kind, b.kind), (KindDef::Option { .. }, KindDef::Option { .. }) | (KindDef::Future { .. }, KindDef::Future { .. })) {
+                    sibling_contracts = true;
+                }
+            }
+        }
+        // two batches: split in the middle (batching is the caller's choice)
+        let mid = subs.len() / 2;
+        let batches_in: Vec<Vec<Subscription<ExchangeId, MarketDataInstrument, SubKind>>> = vec![subs[..mid].iter().map(|(s, _)| s.clone()).collect(), subs[mid..].iter().map(|(s, _)| s.clone()).collect()];
+        match index_market_data_subscription_batches(&indexed, batches_in) {
+            Err(e) => bad!("indexing:failed", "indexing subscriptions for instruments of the collection failed: {e}"),
+            Ok(out) => {
+                let flat: Vec<_> = out.into_iter().flatten().collect();
+                if flat.len() != subs.len() {
+                    bad!("indexing:count", "{} subscriptions in, {} out", subs.len(), flat.len());
+                }
+                for (got, (sub, d)) in flat.iter().zip(&subs) {
+                    let want = index_of(d);
+                    if Some(got.instrument.key) != want || got.instrument.value != sub.instrument || got.exchange != sub.exchange || got.kind != sub.kind {
+                        bad!("indexing:wrong-index", "subscription for {} ({:?}) was given {:?}, that instrument is {want:?} (index {:?} is {})", d.name_internal(), sub.instrument.kind, got.instrument.key, got.instrument.key, indexed.instruments().get(got.instrument.key.index()).map(|i| i.value.name_internal.name().to_string()).unwrap_or_default());
+                    }
+                }
+            }
+        }
+        rep.class_if(excluded > 0, "indistinguishable_definitions_excluded");
+        rep.class_if(sibling_contracts, "sibling_contracts_on_one_underlying");
+        rep.class_if(indexed.exchanges().len() >= 2, "two_or_more_exchanges");
+        rep.nontrivial = sibling_contracts && subs.len() >= 3;
+        rep
+    }
+}
+
 pub fn run(ctx: &mut Ctx) {
-    ctx.rule = "attribution: a (connector, kind) pair out of the 21 the dynamic builder supports x an instrument form (MarketDataInstrument / Keyed<K,_> / MarketInstrumentData<K>) x 2..5 instruments with names from an adversarial pool (mixed case, digits, shared prefixes: btc/btcu/usd/usdt/usdc/1inch/xbt/t/sd ...) and kinds legal for the venue (expiries incl. year-boundary dates, strikes incl. fractional ones such as 0.33 / 1.5 / 35000.5, call/put for Gateio/OKX futures and options); in a quarter of the cases 1..2 subscriptions appear a second time in the batch handed to the mapper (not for Bitfinex) x 1..7 messages each for a subscribed market or an unsubscribed look-alike (35%), 1..3 trades per message on batching venues. Venue market strings and payload schemas come from an independent table written from the venue formats the repo documents. Pairs of instruments whose venue market strings coincide are dropped (counted). non-trivial = >= 2 subscribed instruments sharing a prefix AND both a hit and a miss message; every one of the 63 (connector, kind, form) cells must be exercised or the run is inconclusive.".into();
+    ctx.rule = "attribution: a (connector, kind) pair out of the 21 the dynamic builder supports x an instrument form (MarketDataInstrument / Keyed<K,_> / MarketInstrumentData<K>) x 2..5 instruments with names from an adversarial pool (mixed case, digits, shared prefixes: btc/btcu/usd/usdt/usdc/1inch/xbt/t/sd ...) and kinds legal for the venue (expiries incl. year-boundary dates, strikes incl. fractional ones such as 0.33 / 1.5 / 35000.5, call/put for Gateio/OKX futures and options); in a quarter of the cases 1..2 subscriptions appear a second time in the batch handed to the mapper (not for Bitfinex) x 1..7 messages each for a subscribed market or an unsubscribed look-alike (35%), 1..3 trades per message on batching venues. Venue market strings and payload schemas come from an independent table written from the venue formats the repo documents. Pairs of instruments whose venue market strings coincide are dropped (counted). non-trivial = >= 2 subscribed instruments sharing a prefix AND both a hit and a miss message; every one of the 63 (connector, kind, form) cells must be exercised or the run is inconclusive. indexed_subscriptions: 0..5 instrument definitions over 1..3 exchanges plus a chain of 0..6 futures / options on two underlyings (3 expiries, call/put, 3 strikes); generate_indexed_market_data_subscription_batches must give every instrument one subscription per kind carrying its own index, and index_market_data_subscription_batches must give each unindexed subscription (handed over in a generated order, in two batches) the index of exactly the instrument it was derived from; definitions that differ only in settlement asset / quantity unit are indistinguishable in the market-data form and set aside (counted). non-trivial = >= 3 subscriptions incl. two futures or two options on one underlying.".into();
     ctx.assumptions = vec![
         "venues behave as their documented formats say (market strings, payload shapes, Bitfinex channel-id assignment in `subscribed` replies)".into(),
         "prices/amounts compared as the parsed decimal strings (f64 fields within 1e-12 relative); exchange time within 1 ms; Bitfinex / Gateio-futures sign-encoded amounts compared by magnitude".into(),
@@ -900,8 +1052,10 @@ pub fn run(ctx: &mut Ctx) {
     }
     ctx.run_regressions::<Attribution>();
     ctx.run::<Attribution>(ctx.tier.pick(63_000, 1_050_000));
+    ctx.run_regressions::<IndexedSubscriptions>();
+    ctx.run::<IndexedSubscriptions>(ctx.tier.pick(30_000, 400_000));
 }
 
 pub fn replay(ctx: &mut Ctx, doc: &Value) -> bool {
-    ctx.replay::<Attribution>(doc)
+    ctx.replay::<Attribution>(doc) || ctx.replay::<IndexedSubscriptions>(doc)
 }
